@@ -113,7 +113,7 @@ impl Property for C04 {
         vec![
             "SimDisplay models conforming drivers (a failing call may have transmitted a prefix of its pixels)",
             "calls are counted where they arrive at the device from above; trait-default delegation inside the device belongs to the failing call",
-            "coordinates within +-64, sizes <= 64, stroke width <= 66, stack depth <= 3",
+            "coordinates within +-64, sizes <= 64, stroke width <= 66 in most runs (1 run in 256: +-300, sizes <= 300, widths <= 140), stack depth <= 3",
             "release arithmetic (overflow-checks off), default features",
             "a scenario whose fault-free run panics is skipped (totality is C08, not claimed)",
         ]
@@ -122,13 +122,25 @@ impl Property for C04 {
     fn gen(&self, src: &mut Src) -> Scenario {
         let dev_kind = CHAIN_KINDS[src.draw(3) as usize];
         let (caps, disc) = gen_caps_disc(src);
+        // 1 run in 256: display-scale sizes and coordinates (up to 300, stroke widths up to 140)
+        let huge = src.draw(256) == 255;
         let large = src.draw(5) < 3;
-        let bbox = if large { [-90, -90, 230, 230] } else { gen_small_box(src) };
+        let bbox = if huge {
+            [-2000, -2000, 4000, 4000]
+        } else if large {
+            [-90, -90, 230, 230]
+        } else {
+            gen_small_box(src)
+        };
         let dev = DevCfg { bbox, caps, disc };
         let stack = gen_stack(src, &dev.r(), dev_kind, 3, true, 24, false);
         let sm = crate::model::StackModel::new(dev.r(), dev_kind, &stack);
         let top_kind = sm.top_kind();
         let mut knobs = gen_knobs(src, top_kind.mask(), true);
+        if huge {
+            knobs.scale = 300;
+            knobs.max_width = 140;
+        }
         knobs.aim_at(&sm.top_box());
         let drawable = gen_drawable(src, &knobs, top_kind.bits());
         let pick = src.draw(1 << 16);
